@@ -269,7 +269,7 @@ def obligations(tier, seed):
     for n in [2, 3]:
         for kind in ['rules', 'csv']:
             for msf in ([None] if n == 2 else [False, True]):       # 3 sources: one obligation per rule mode (64 paths each)
-                obs.append(Obligation(id=f'wiring-n{n}-{kind}' + ('' if msf is None else '-ms%d' % msf), factory='wiring', params={'n': n, 'kind': kind, 'ms_fixed': msf}, timeout=170 if q else 900, group='explain / discover / up wiring',
+                obs.append(Obligation(id=f'wiring-n{n}-{kind}' + ('' if msf is None else '-ms%d' % msf), factory='wiring', params={'n': n, 'kind': kind, 'ms_fixed': msf}, timeout=(170 if n == 2 else 280) if q else 900, group='explain / discover / up wiring',
                                       bounds=f'{n} sources (no supplemental source), rules file kind {kind}; symbolic file-exists and decimal-separator flags per source, ' + ('symbolic rule mode' if msf is None else 'rule mode ' + ('most_specific' if msf else 'first_match'))))
     obs.append(Obligation(id='explain-merchant-lookup', factory='explain_merchant_lookup', timeout=170 if q else 600, group='explain / discover / up wiring',
                           bounds='explain <merchant> for a symbolic choice among 5 names (two differ only in letter case); second source exists or not'))
